@@ -507,6 +507,14 @@ func (c *changeCache) DocChanged(event sgbucket.FeedEvent, docType DocumentType)
 					change.SourceID = atRev.CurrentSource
 					change.Version = base.HexCasToUint64(atRev.CurrentVersion)
 					change.Channels = channelRemovals
+					// a removal caused by the deletion of the document is announced as a deletion, as it is when the
+					// tombstone's own mutation arrives and when the entry comes from a query
+					for _, removal := range channelRemovals {
+						if removal != nil && removal.Deleted {
+							change.Flags |= channels.Deleted
+							break
+						}
+					}
 				} else {
 					change.UnusedSequence = true // treat as unused sequence when sequence is not channel removal
 				}
